@@ -1,0 +1,92 @@
+//go:build verif
+
+package protocol
+
+import (
+	"github.com/bolkedebruin/rdpgw/cmd/rdpgw/identity"
+	"github.com/bolkedebruin/rdpgw/cmd/rdpgw/transport"
+)
+
+// This file exists only under the `verif` build tag. It gives the external
+// verification harness access to unexported state; it changes no behaviour.
+
+// VerifTunnelSnapshot is the property-relevant part of a Tunnel.
+type VerifTunnelSnapshot struct {
+	Id           string
+	RDGId        string
+	TargetServer string
+	RemoteAddr   string
+	UserName     string
+	HasBackend   bool
+	HasIn        bool
+	HasOut       bool
+	State        int // processor state, -1 when not known
+}
+
+// NewVerifTunnel builds a tunnel over the given transports.
+func NewVerifTunnel(in, out transport.Transport, id identity.Identity, remoteAddr string) *Tunnel {
+	return &Tunnel{
+		Id:           "verif",
+		RDGId:        "verif",
+		transportIn:  in,
+		transportOut: out,
+		RemoteAddr:   remoteAddr,
+		User:         id,
+	}
+}
+
+// VerifSnapshot returns the property-relevant fields of the tunnel.
+func (t *Tunnel) VerifSnapshot() VerifTunnelSnapshot {
+	s := VerifTunnelSnapshot{
+		Id:           t.Id,
+		RDGId:        t.RDGId,
+		TargetServer: t.TargetServer,
+		RemoteAddr:   t.RemoteAddr,
+		HasBackend:   t.rwc != nil,
+		HasIn:        t.transportIn != nil,
+		HasOut:       t.transportOut != nil,
+		State:        -1,
+	}
+	if t.User != nil {
+		s.UserName = t.User.UserName()
+	}
+	return s
+}
+
+// VerifState returns the processor's protocol state.
+func (p *Processor) VerifState() int { return p.state }
+
+// VerifResetGlobals clears the process-wide tunnel cache and registry.
+func VerifResetGlobals() {
+	c.Flush()
+	Connections = nil
+}
+
+// VerifCacheLen is the number of entries in the legacy tunnel cache.
+func VerifCacheLen() int { return c.ItemCount() }
+
+// VerifCachedTunnels returns snapshots of the tunnels in the legacy cache.
+func VerifCachedTunnels() map[string]VerifTunnelSnapshot {
+	out := map[string]VerifTunnelSnapshot{}
+	for k, it := range c.Items() {
+		if t, ok := it.Object.(*Tunnel); ok {
+			out[k] = t.VerifSnapshot()
+		}
+	}
+	return out
+}
+
+// VerifConnections returns snapshots of the registered tunnels by id.
+func VerifConnections() map[string]VerifTunnelSnapshot {
+	out := map[string]VerifTunnelSnapshot{}
+	for k, m := range Connections {
+		if m != nil && m.Tunnel != nil {
+			s := m.Tunnel.VerifSnapshot()
+			if m.Processor != nil {
+				s.State = m.Processor.state
+			}
+			out[k] = s
+		}
+	}
+	return out
+}
